@@ -80,7 +80,7 @@ MIN_COUNTERS = {
 
 
 def plan(tier, seed):
-    total = 16000 if tier == 'quick' else 1_200_000
+    total = 90000 if tier == 'quick' else 1_200_000
     parts = 12 if tier == 'quick' else 16
     secs = 40 if tier == 'quick' else 600
     return [{'name': f'g{p}', 'mode': 'nrt', 'kind': 'g', 'first_case': f,
